@@ -150,6 +150,8 @@ def run(F, rep):
 
     # ------------------------------------------------------------ G5: the sample name taken from a file name ignores the compression suffix
     g5_rule(F, rep)
+    # ------------------------------------------------------------ G6: no second, case-sensitive letter table
+    g6_rule(F, rep)
 
 
 NAME_TEMPLATES = [(b, e) for b in ("s1", "asm.v1", "GCA_000001405.15", "sample-a_b") for e in ("fa", "fasta", "fna", "fas", "faa", "txt", None)]
@@ -209,3 +211,42 @@ def g5_rule(F, rep):
 
 def _bn(p):
     return p.rsplit("/", 1)[-1]
+
+
+def g6_rule(F, rep):
+    """Input letters reach the pipeline through one table (CNV_NUM, case-insensitive by G2).  A dispatch on a byte or char
+    against letter constants anywhere else in the live code is a second letter table; it must treat both cases of every
+    letter it names alike (the upper- and the lower-case value select the same arm), otherwise soft-masked input takes a
+    different path than upper-case input.  The dead helper Base::from_char (a `match` on 'A','C','G','T') is the
+    always-present positive control of the matcher."""
+    import pipeline
+    G = cgmod.CallGraph(F)
+    live = pipeline.live_scope(F, G)
+    nlive = nctrl = 0
+    for k, f in sorted(F.funcs.items()):
+        if f.crate not in ("ragc_core", "ragc", "ragc_common") or f.d.get("test") or f.kind == "promoted":
+            continue
+        for bi, b in enumerate(f.blocks):
+            t = b["term"]
+            if t["k"] != "switch":
+                continue
+            arms = {}
+            for v, tb in t["targets"]:
+                arms[v] = tb
+            letters = [v for v in arms if 65 <= v <= 90 or 97 <= v <= 122]
+            if len(letters) < 3:
+                continue
+            ty = t["discr"].get("pl", {}).get("ty", t["discr"].get("ty", ""))
+            if ty not in ("u8", "char"):
+                continue
+            if k not in live:
+                nctrl += 1
+                continue
+            nlive += 1
+            bad = [chr(v) for v in letters if arms.get(v ^ 0x20, t["otherwise"]) != arms[v]]
+            rep.ob("C19-G6", "letter dispatch in %s treats upper and lower case alike" % k.split("::", 1)[-1], not bad,
+                   detail="letters %s are handled, their other case falls into a different arm: soft-masked input is converted differently" % sorted(set(bad)) if bad else "case-closed",
+                   site=site_of(f, t), key="C19-G6 | %s | case-closed letter dispatch" % k)
+    rep.ob("C19-G6", "no case-sensitive letter table besides the input table (%d letter dispatches in live code, %d in unused helpers)" % (nlive, nctrl), True, how="trivial",
+           key="C19-G6 | summary")
+    rep.floor("C19-G6", nctrl + nlive, 1, "dispatches on letter constants seen by the matcher (Base::from_char control)")
